@@ -1077,17 +1077,22 @@ RULE = ('exhaustive: every cross-reference graph over n <= 3 entries (crossref o
         'writing every field; Python: BaseStyle.format_bibliography with a template writing every field) and through the glue '
         '(Field.value, Crossref.value, template field(), add_extra_citations, strict mode). random: graphs of 2..12 entries '
         '(chains, cycles, trees, random), key/field-name case variation, aliased objects, repeated keys, foreign start entry, '
-        'empty values, roles without persons, citations incl. *, missing and repeated ones, min_crossrefs -1..3. long: chains and '
+        'empty values, roles without persons, citations incl. *, missing and repeated ones, min_crossrefs -1..3. filtered_chains: from .bib text, '
+        'both engines reading the file filtered by the citations -- chains of length 0..3 x which ancestor defines the field x every citation list '
+        '(child + any subset of ancestors, *) x min_crossrefs 1..3 x four stock styles, children first; the same through Parser(wanted_entries). '
+        'person_roles: chains 1..3 x every assignment of the role author x citation lists, BST field vs names() of the stock styles. long: chains and '
         'cycles of 20..150 entries. malformed: half of the crossrefs dangling. distinct = distinct (function, argument); '
         'non-trivial = the database has at least one crossref field and the call returned.')
-EXHAUSTIVE = {'quick': 'all graphs over <= 3 entries x {title, editor} assignments x all start entries x {title, editor} via Entry._find_field (engines: all for n <= 2, every 4th database for n = 3)',
+EXHAUSTIVE = {'quick': 'all chains of length 0..3 x defining ancestor x citation subsets x min_crossrefs 1..3 read filtered through both engines; all graphs over <= 3 entries x {title, editor} assignments x all start entries x {title, editor} via Entry._find_field (engines: all for n <= 2, every 4th database for n = 3)',
               'thorough': 'as quick with both engines on every database, plus 2 entries x {title, editor, year}, plus all graphs over 4 entries x title assignments'}
-TRUSTED_BASE = ['modelled (not verified) code: pybtex/database/__init__.py Entry._find_field/_find_person_field/_find_crossref_field, BibliographyData.add_extra_citations/_expand_wildcard_citations/_get_crossreferenced_citations; pybtex/bibtex/interpreter.py Field.value/Crossref.value/command_read/remove_missing_citations/_iterate; pybtex/style/template.py field(); pybtex/style/formatting/__init__.py format_bibliography/format_entries/format_entry',
+TRUSTED_BASE = ['modelled (not verified) code: pybtex/database/__init__.py Entry._find_field/_find_person_field/_find_crossref_field, BibliographyData.add_extra_citations/_expand_wildcard_citations/_get_crossreferenced_citations; pybtex/bibtex/interpreter.py Field.value/Crossref.value/command_read/remove_missing_citations/_iterate; pybtex/style/template.py field() and names(); BibliographyData.want_entry/get_canonical_key/add_entry (filtered reading); pybtex/style/formatting/__init__.py format_bibliography/format_entries/format_entry',
                 'str(Person) is an input of the model (a person is represented by its str()); the .bib parsers, the BST built-ins missing$/if$/write$/newline$ and the template combinators first_of/optional/join are exercised by the implementation runs but not modelled']
 ASSUMPTIONS = ['keys and field names are ASCII (str.lower modelled on ASCII)',
                'cross-reference chains stay below CPython\'s recursion limit (498 hops from the top level at the default limit of 1000; deeper chains raise RecursionError); the model has no recursion limit',
                'object identity: two Entry objects with the same identity have the same content (trivially true in Python; a hypothesis ids_wf of the chain theorems)']
-PARTIAL = ['engines_agree / engines_agree_field are about ONE database handed to both engines; that the two engines build their databases differently from .bib text (BST: author/editor are fields, Python: persons) is outside the model and is covered by the end-to-end stream (title/year/note, four stock styles) only',
+PARTIAL = ['names_inherit_refuted / names_own_partial: the stock styles\' names(role) does not see an inherited person role (known finding FC14a); the statement holds for roles the entry has itself and for every field read through field()',
+           'filtered_chain_inherits assumes distinct keys and children-before-parents file order (the other order is finding F13 of C05/C06; Example children_first_needed)',
+           'engines_agree / engines_agree_field are about ONE database handed to both engines; that the two engines build their databases differently from .bib text (BST: author/editor are fields, Python: persons) is outside the model and is covered by the end-to-end stream (title/year/note, four stock styles) only',
            'the chain theorems (find_field_spec, inherits_nearest, missing_along_chain) assume object identity ids_wf; find_terminates and own_field_wins do not',
            'CPython\'s recursion limit is not modelled: beyond 498 hops the implementation raises RecursionError (terminates, but not with a value)',
            'the BST variable named crossref (Crossref.value) is excluded from engines_agree: it is the resolved key, not an inherited field']
